@@ -172,7 +172,7 @@ class Gen:
         s.r = rng; s.size, s.depth, s.edepth, s.typed = size, depth, edepth, typed
         s.p_docs, s.p_stmtc, s.p_shadow, s.forward, s.lits, s.nonascii = docs, stmt_comments, shadow, forward, lits, nonascii
         s.max_stmts = max_stmts if max_stmts is not None else size
-        s.P = Program(); s.n = 0; s.cur = None; s.ncomment = 0
+        s.P = Program(); s.n = 0; s.cur = None; s.ncomment = 0; s.type_pool = None
 
     def fresh(s, prefix):
         s.n += 1; return "%s%d" % (prefix, s.n)
@@ -209,15 +209,16 @@ class Gen:
     def type_expr(s, creator, depth=0):
         """returns (node, Ty, named type decl or None)"""
         r = s.r
+        pool = s.type_pool if s.type_pool is not None else s.P.types
         choices = ["int"]
-        if s.P.types: choices += ["named", "named"]
+        if pool: choices += ["named", "named"]
         if depth < 2: choices += ["array"]
         c = r.choice(choices)
         if c == "int":
             t = Tok("id", "int", role="use", bind="builtin:int")
             return Node("NamedType", [t], name=t), INT, None
         if c == "named":
-            d = r.choice(s.P.types)
+            d = r.choice(pool)
             t = Tok("id", d.name, role="use", bind=d)
             return Node("NamedType", [t], name=t), d.ty, d
         n = r.randint(1, 9)
@@ -264,6 +265,7 @@ class Gen:
         d.node = Node("ProcDecl", [k, ident, d.lparen] + parts + [d.rparen, d.lcurly, d.rcurly], decl=d, name=ident,
                       params=[p.node for p in params], vars=[], stmts=[])
         d.head_len = len(d.node.parts) - 1
+        d.visible_types = list(s.P.types)     # types declared before this procedure (a type must be declared before its use)
         s.P.procs.append(d)
         return d
 
@@ -281,6 +283,7 @@ class Gen:
 
     def proc_body(s, d):
         r = s.r; s.cur = d
+        s.type_pool = d.visible_types
         vars_ = []
         for i in range(r.randint(0, 3)):
             vname = s.local_name(d, "v")
@@ -296,6 +299,7 @@ class Gen:
         n = d.node
         n.vars, n.stmts = vars_, stmts
         n.parts = n.parts[:d.head_len] + vars_ + stmts + [d.rcurly]
+        s.type_pool = None
 
     # ---- expressions
     def intlit(s, n=None, forms=None):
@@ -325,6 +329,17 @@ class Gen:
 
     def variable(s, want, edepth):
         """variable expression of exactly type `want`, indexing arrays as needed; None if impossible"""
+        if not s.typed:
+            # syntax only: any name, any number of index brackets
+            r = s.r
+            names = [v.name for v in s.scope_vars()] + ["undef", "T1", "main", "q_q"]
+            nm = r.choice(names)
+            t = Tok("id", nm, role="use", bind=s.visible(nm))
+            node = Node("NamedVar", [t], name=t)
+            for _ in range(r.choice([0, 0, 1, 2, 4]) if edepth > 0 else 0):
+                ix = s.expr(max(0, edepth - 1)) if r.random() < .8 else s.comp(0)
+                node = Node("ArrayAccess", [node, sym("["), ix, sym("]")], array=node, index=ix)
+            return node
         c = []
         for v in s.scope_vars():
             ty = v.ty; k = 0
@@ -412,12 +427,12 @@ class Gen:
         if k == "assign":
             v = s.variable(INT, 1)
             if v is None: return Node("Empty", [sym(";")])
-            e = s.expr(s.edepth)
+            e = s.expr(s.edepth) if s.typed or r.random() < .8 else s.comp(s.edepth)
             return Node("Assign", [v, sym(":="), e, sym(";")], target=v, expr=e)
         if k == "call":
             return s.call()
         if k in ("if", "ifelse", "if_noblock", "elseif"):
-            c = s.comp(1)
+            c = s.comp(1) if s.typed or r.random() < .8 else s.expr(2)
             head = [kw("if"), sym("("), c, sym(")")]
             if k == "if":
                 t = s.block(depth - 1); return Node("If", head + [t], cond=c, then=t, els=None)
@@ -451,6 +466,8 @@ class Gen:
             p = r.choice(cands); name = p.name; sig = [(q.ty, q.is_ref) for q in p.params]; callee = p
         else:
             return Node("Empty", [sym(";")])
+        if not s.typed:
+            sig = [(INT, False)] * r.choice([0, 1, 1, 2, 3, 5])
         nt = Tok("id", name, role="use", bind=callee)
         lp, rp = sym("("), sym(")")
         parts = [Node("Ident", [nt], name=nt), lp]; args = []; commas = []
@@ -459,7 +476,7 @@ class Gen:
                 a = s.variable(ty, 1)
                 if a is None: return Node("Empty", [sym(";")])
             else:
-                a = s.expr(s.edepth)
+                a = s.expr(s.edepth) if s.typed or r.random() < .8 else s.comp(1)
             if i:
                 c = sym(","); commas.append(c); parts.append(c)
             parts.append(a); args.append(a)
@@ -557,3 +574,147 @@ def expected_tree(P):
                 out.append(["Variable", v.a, v.b, docs(v)]); ident(v.name); texpr(v.type_expr)
             for st in d.stmts: stmt(st)
     return out
+
+
+# ---------------------------------------------------------------- hand builders (fault injection, edits, special shapes)
+def mk_name(name, bind=None, role="use"):
+    t = Tok("id", name, role=role, bind=bind)
+    return t
+
+
+def mk_var(name, bind=None):
+    t = mk_name(name, bind); return Node("NamedVar", [t], name=t)
+
+
+def mk_int(n, text=None):
+    t = Tok("int", text if text is not None else str(n), val=n); return Node("IntLit", [t], tok=t, value=n)
+
+
+def mk_bin(l, op, r):
+    return Node("Binary", [l, sym(op), r], op=op, lhs=l, rhs=r)
+
+
+def mk_paren(e): return Node("Paren", [sym("("), e, sym(")")], expr=e)
+
+
+def mk_unary(e): return Node("Unary", [sym("-"), e], expr=e)
+
+
+def mk_index(v, e): return Node("ArrayAccess", [v, sym("["), e, sym("]")], array=v, index=e)
+
+
+def mk_assign(v, e): return Node("Assign", [v, sym(":="), e, sym(";")], target=v, expr=e)
+
+
+def mk_empty(): return Node("Empty", [sym(";")])
+
+
+def mk_call(name, args, callee=None, proc=None):
+    nt = mk_name(name, callee); ident = Node("Ident", [nt], name=nt)
+    lp, rp = sym("("), sym(")"); parts = [ident, lp]; commas = []
+    for i, a in enumerate(args):
+        if i:
+            c = sym(","); commas.append(c); parts.append(c)
+        parts.append(a)
+    parts += [rp, sym(";")]
+    return Node("Call", parts, name=ident, args=list(args), lparen=lp, rparen=rp, commas=commas, callee=callee, proc=proc)
+
+
+def mk_block(stmts): return Node("Block", [sym("{")] + list(stmts) + [sym("}")], stmts=list(stmts))
+
+
+def mk_if(cond, then, els=None):
+    parts = [kw("if"), sym("("), cond, sym(")"), then] + ([kw("else"), els] if els is not None else [])
+    return Node("If", parts, cond=cond, then=then, els=els)
+
+
+def mk_while(cond, body): return Node("While", [kw("while"), sym("("), cond, sym(")"), body], cond=cond, body=body)
+
+
+def mk_named_type(name, bind=None):
+    t = mk_name(name, bind); return Node("NamedType", [t], name=t)
+
+
+def mk_array_type(n, base):
+    size = mk_int(n); return Node("ArrayType", [kw("array"), sym("["), size, sym("]"), kw("of"), base], size=size, base=base)
+
+
+def mk_typedecl(name, te, ty=None):
+    d = Decl("type", name, ty=ty); nt = mk_name(name, d, "decl"); d.name_tok = nt; ident = Node("Ident", [nt], name=nt)
+    d.node = Node("TypeDecl", [kw("type"), ident, sym("="), te, sym(";")], decl=d, name=ident, type_expr=te)
+    return d
+
+
+def mk_param(name, te, is_ref=False, ty=None, proc=None):
+    p = Decl("param", name, ty=ty, is_ref=is_ref, proc=proc); pt = mk_name(name, p, "decl"); p.name_tok = pt; ident = Node("Ident", [pt], name=pt)
+    p.node = Node("Param", ([kw("ref")] if is_ref else []) + [ident, sym(":"), te], decl=p, name=ident, type_expr=te, is_ref=is_ref)
+    return p
+
+
+def mk_vardecl(name, te, ty=None, proc=None):
+    v = Decl("var", name, ty=ty, proc=proc); vt = mk_name(name, v, "decl"); v.name_tok = vt; ident = Node("Ident", [vt], name=vt)
+    v.node = Node("VarDecl", [kw("var"), ident, sym(":"), te, sym(";")], decl=v, name=ident, type_expr=te)
+    return v
+
+
+def rebuild_proc(d):
+    """recompute the parts of a procedure node from its params / vars / stmts"""
+    n = d.node
+    head = [n.parts[0], n.name, d.lparen]
+    for i, p in enumerate(d.params):
+        if i: head.append(sym(","))
+        head.append(p.node)
+    head += [d.rparen, d.lcurly]
+    d.head_len = len(head)
+    n.params = [p.node for p in d.params]
+    n.parts = head + n.vars + n.stmts + [d.rcurly]
+
+
+def mk_proc(name, params=(), vars_=(), stmts=()):
+    d = Decl("proc", name); nt = mk_name(name, d, "decl"); d.name_tok = nt; ident = Node("Ident", [nt], name=nt)
+    d.params = list(params); d.locals = list(vars_); d.names = set(x.name for x in d.params + d.locals)
+    for x in d.params + d.locals: x.proc = d
+    d.lparen, d.rparen, d.lcurly, d.rcurly = sym("("), sym(")"), sym("{"), sym("}")
+    d.node = Node("ProcDecl", [kw("proc"), ident], decl=d, name=ident, params=[], vars=[v.node for v in d.locals], stmts=list(stmts))
+    rebuild_proc(d)
+    return d
+
+
+def rebuild_block(n):
+    n.parts = [n.parts[0]] + n.stmts + [n.parts[-1]]
+
+
+def stmt_lists(P):
+    """every statement list of the program: (proc decl, container node, nesting depth)"""
+    out = []
+    def rec(n, proc, depth):
+        if n.kind == "Block":
+            out.append((proc, n, depth))
+            for c in n.stmts: rec(c, proc, depth + 1)
+        elif n.kind == "If":
+            rec(n.then, proc, depth + 1)
+            if n.els is not None: rec(n.els, proc, depth + 1)
+        elif n.kind == "While":
+            rec(n.body, proc, depth + 1)
+    for p in P.procs:
+        out.append((p, p.node, 0))
+        for st in p.node.stmts: rec(st, p, 1)
+    return out
+
+
+def insert_stmt(container, index, stmt):
+    container.stmts.insert(index, stmt)
+    if container.kind == "ProcDecl": rebuild_proc(container.decl)
+    else: rebuild_block(container)
+
+
+def remove_stmt(container, index):
+    st = container.stmts.pop(index)
+    if container.kind == "ProcDecl": rebuild_proc(container.decl)
+    else: rebuild_block(container)
+    return st
+
+
+def insert_decl(P, index, d):
+    P.root.parts.insert(index, d.node); P.root.decls.insert(index, d)
+    (P.types if d.kind == "type" else P.procs).append(d)
